@@ -125,7 +125,7 @@ fn for_each_seq(menu: &[Op], len: usize, f: &mut dyn FnMut(&[Op])) {
 
 /// Runs one call sequence against the reference automaton. `prop` selects which findings count:
 /// C08 = error classes and unwinding; C02 = path endpoints w.r.t. the latest problem.
-fn run_sequence<K: Kit>(prop: &str, sc: &Scenario, seq: &[Op], rep: &mut Report) {
+fn run_sequence<K: Kit>(prop: &str, sc: &Scenario, seq: &[Op], faults: (Option<usize>, Option<usize>), rep: &mut Report) {
     let pk = sc.params.pk;
     let ak = api_kit(sc.kit);
     let name = pk.name();
@@ -136,11 +136,21 @@ fn run_sequence<K: Kit>(prop: &str, sc: &Scenario, seq: &[Op], rep: &mut Report)
             return;
         }
     };
+    // goal-sampler failures inside a history: P1's / P2's goal fails at its k-th sample_goal call
+    if let Some(k) = faults.0 {
+        h.g1.fail_at.set(Some((k, 0)));
+    }
+    if let Some(k) = faults.1 {
+        h.g2.fail_at.set(Some((k, 1)));
+    }
+    if faults != (None, None) {
+        rep.count("sequences_with_goal_sampler_fault", 1);
+    }
     let mut pd = Prob::None; // installed problem
     let mut vc = false; // checker installed
     let mut outcome_sig: Vec<u64> = Vec::new();
     rep.count("evaluations", 1);
-    let replay = |i: usize, extra: Value| json!({"kind": "api", "prop": prop, "scenario": sc.json(), "calls": format!("{seq:?}"), "failing_call": i, "detail": extra});
+    let replay = |i: usize, extra: Value| json!({"kind": "api", "prop": prop, "scenario": sc.json(), "calls": format!("{seq:?}"), "goal_sampler_fails_at": format!("{faults:?}"), "failing_call": i, "detail": extra});
     for (i, op) in seq.iter().enumerate() {
         rep.count("transitions", 1);
         let before_nodes = h.rig.snapshot().node_count();
@@ -430,7 +440,18 @@ pub fn explore(prop: &'static str, tier: &'static str) -> Report {
         .map(|(sc, len)| {
             let mut rep = Report::new();
             let m = menu(sc.params.pk);
-            for_each_seq(&m, *len, &mut |seq| with_kit!(sc.kit, run_sequence(prop, sc, seq, &mut rep)));
+            for_each_seq(&m, *len, &mut |seq| with_kit!(sc.kit, run_sequence(prop, sc, seq, (None, None), &mut rep)));
+            // the same sequences (up to length 4) with a goal sampler that fails at its k-th call:
+            // a failed (re-)setup must not leave anything of the previous problem behind
+            if sc.params.pk != Pk::Prm && *len <= 4 {
+                for f1 in [None, Some(0), Some(1)] {
+                    for f2 in [None, Some(0), Some(1)] {
+                        if (f1, f2) != (None, None) {
+                            for_each_seq(&m, *len, &mut |seq| with_kit!(sc.kit, run_sequence(prop, sc, seq, (f1, f2), &mut rep)));
+                        }
+                    }
+                }
+            }
             rep
         })
         .reduce(Report::new, |mut a, b| {
